@@ -1223,6 +1223,35 @@ class Intrinsics:
                              fresh=True))]
         raise Unsupported('int.__repr__')
 
+    def i_math_isinf(self, eng, st, f, pos, kws, node):
+        v = pos[0]
+        if isinstance(v, Sym) and v.ty.kind == 'pyv':
+            b = J.base_of(v.t)
+            # defined for numbers only (anything else: TypeError)
+            outs = []
+            for (s1, num) in eng.branch(st, z3.Or(J.is_int(b), J.is_floatish(b), PyV.is_PBool(b)),
+                                        'M%d' % node.lineno):
+                if num:
+                    outs.append((s1, Sym(PyV.is_PInf(b), BOOL)))
+                else:
+                    outs.append((s1, Raise(new_exc('TypeError'))))
+            return outs
+        raise Unsupported('math.isinf(%r)' % (v,))
+
+    def i_math_isnan(self, eng, st, f, pos, kws, node):
+        v = pos[0]
+        if isinstance(v, Sym) and v.ty.kind == 'pyv':
+            b = J.base_of(v.t)
+            outs = []
+            for (s1, num) in eng.branch(st, z3.Or(J.is_int(b), J.is_floatish(b), PyV.is_PBool(b)),
+                                        'M%d' % node.lineno):
+                if num:
+                    outs.append((s1, Sym(PyV.is_PNaN(b), BOOL)))
+                else:
+                    outs.append((s1, Raise(new_exc('TypeError'))))
+            return outs
+        raise Unsupported('math.isnan(%r)' % (v,))
+
     def i_float___repr__(self, eng, st, f, pos, kws, node):
         v = pos[0]
         if isinstance(v, Sym) and v.ty.kind == 'pyv':
